@@ -14,10 +14,10 @@ compatible models with the same observational joint have the same `P(y | do(x))`
 estimand, which reads the model only through `P(v)`. -/
 theorem id_ok_identifiable {topo : MG Name → Except Err (List Name)} (ts : TopoSound topo) (G : MG Name)
     (X Y : List Name) (hq : ValidQuery G X Y) (e : Expr) (h : identify topo G X Y = .ok e) : Identifiable G X Y := by
-  intro M₁ M₂ h₁ h₂ he σ
+  intro M₁ M₂ h₁ h₂ he σ hσ
   have hv : ObsOnly G.nodes e :=
     id_vocab topo (fun H o ho v hv => (ts.nodes H o ho v).mp hv) G hq.wf X Y e h
   rw [← id_sound ts G X Y hq e h M₁ h₁ σ σ, ← id_sound ts G X Y hq e h M₂ h₂ σ σ]
-  exact NonId.den_obs_congr h₁ h₂ hq.wf hq.ranked he σ e hv σ
+  exact NonId.den_obs_congr h₁ h₂ hq.wf hq.ranked he σ e hv σ hσ
 
 end Y0
